@@ -39,6 +39,14 @@ T = {
          "exhaustive on the small grid; the 52-bit range is reached by homogeneity and translation invariance of the determinant", "DESIGN.md §5 C10"),
  "C11": ("the VPred vectors replayed into each buildable backend (ibig, dashu, malachite, num_bigint) must give the specification's sign; tessellations of degenerate lattice inputs (exact path consulted, incl. non-tie decisions) must be bitwise equal across backends",
          "rug backend cannot be built in the sandbox (needs m4/GMP)", "DESIGN.md §5 C11"),
+ "C14": ("the harness is a downstream crate implementing CellIntegral/FaceIntegral (moments up to degree 2, plane probes); VDecomp (TLA+) fixes what both decompositions feed per plane (StreamsAgree, model-checked on every finished lattice cell) and VFacesTrace validates the recorded per-plane triangle counts, tetrahedron counts and the cell handed to init; moments of both decompositions compared with an independent integration of the polytope from its face polygons",
+         "per-cell data of a type other than () cannot be implemented downstream (finding F10): alignment observed through the cell passed to init", "DESIGN.md §5 C14"),
+ "C15": ("VFaces (transcription of with_faces / sort_face_vertices) model-checked on every finished lattice cell for several storage orders (FacesOK, CcwInward exact, OrderIndependent); recorded vertex triples and faces of real cells validated by VFacesTrace (re-extraction, incidence, simple cycles, shared planes, direction, Euler, accessors); geometric clauses, discard/with_faces identity and rejection in 1D/2D checked in the harness",
+         "geometric clauses numeric with tolerance; memory safety of the unchecked accessors not decided", "DESIGN.md §5 C15"),
+ "C19": ("VHelpers: exact closed forms of every exported helper; TLC checks the defining equations on them for every small integer argument tuple and prints the tuples with exact results; replay under similarity embeddings and rescaled normals",
+         "irrational results compared through exact squares", "DESIGN.md §5 C19"),
+ "C20": ("VAux: definition of k-nearest (KnnOK) and brute-force exact minimal enclosing sphere (Exists, Unique, Contains model-checked over every small lattice point set); Space::knn results on quarter-lattice particle sets (cubic and non-cubic boxes, all k) validated by VAuxTrace with exact distances; Welzl = minimal sphere, Epos6 contains and is not smaller",
+         "knn only on lattice particle sets; sphere tolerance 1e-7", "DESIGN.md §5 C20"),
 }
 
 checks = []
@@ -68,7 +76,7 @@ man = {
               "kind_free_text": "python driver (vv, vvlib.py, vvchecks.py): TLC on /verif/spec/*.tla + Rust conformance harness /verif/harness (spec->impl replay, impl->spec trace validation)"}],
  "checks": checks,
  "not_applicable": na,
- "notes": "fix: commits in /repo: 9aa5d8b (F5), 8b19079 (F4), e99813a (F8), ae14f4d (F1), a175b66 (F9); known findings in /verif/known_findings.json",
+ "notes": "fix: commits in /repo: 9aa5d8b (F5), 8b19079 (F4), e99813a (F8), ae14f4d (F1), a175b66 (F9), 30592d2 (F6), 9097a8c (F7); open known finding F2 and the list of fixed ones in /verif/known_findings.json; seeded changes used to test sensitivity in /verif/seeded",
 }
 json.dump(man, open("/verif/MANIFEST.json", "w"), indent=1)
 print("checks:", [c["property_id"] for c in checks], "n/a:", [x["property_id"] for x in na])
